@@ -45,6 +45,20 @@ def split_args(s):
     if cur.strip(): out.append(cur.strip())
     return out
 
+
+def split_typed(s):
+    """'<type> <operand>' -> (type, operand); operand may be a constant expression"""
+    s = s.strip()
+    depth = 0
+    for i, ch in enumerate(s):
+        if ch in '([{<': depth += 1
+        elif ch in ')]}>': depth -= 1
+        elif ch == ' ' and depth == 0:
+            rest = s[i+1:]
+            if rest[0] in '%@-0123456789' or rest.startswith(('getelementptr', 'null', 'bitcast', 'true', 'false', 'undef', 'poison', 'inttoptr', 'zeroinitializer')):
+                return s[:i], rest
+    raise Unsupported('split_typed ' + s)
+
 class Layout:
     def __init__(self, structs): self.structs = structs; self.cache = {}
     def size_align(self, t):
@@ -298,8 +312,8 @@ class Exec:
             env[dst] = z3.ZeroExt(b2 - x.size(), x) if op == 'zext' else z3.SignExt(b2 - x.size(), x) if op == 'sext' else z3.Extract(b2 - 1, 0, x)
             return
         if op == 'select':
-            mm = re.match(r'^select i1 (\S+), (\S+) (\S+), (\S+) (\S+)$', rhs)
-            c, t, a, t2, b = mm.groups()
+            parts = split_args(rhs[len('select '):])
+            c = parts[0].split()[1]; t, a = split_typed(parts[1]); t2, b = split_typed(parts[2])
             cv = self.const('i1', c, env) == 1
             env[dst] = self.ite(cv, self.const(t, a, env), self.const(t2, b, env)); return
         if op == 'phi':
@@ -349,19 +363,25 @@ class Exec:
                 it, iv = a.rsplit(' ', 1); idxs.append((it, self.const(it, iv, env)))
             env[dst] = self.gep(args[0], base, idxs); return
         if op == 'load':
-            mm = re.match(r'^load (.+?), (.+?) (\S+), align \d+$', rhs)
-            t, pt, p = mm.groups()
+            parts = split_args(rhs[len('load '):])
+            t = parts[0].replace('volatile ', '').strip(); pt, p = split_typed(parts[1])
             env[dst] = self.load(self.const(pt, p, env), t, g); return
         if op == 'store':
-            mm = re.match(r'^store (.+?) (\S+), (.+?) (\S+), align \d+$', rhs)
-            t, v, pt, p = mm.groups()
+            parts = split_args(rhs[len('store '):])
+            t, v = split_typed(parts[0]); pt, p = split_typed(parts[1])
             self.store(self.const(pt, p, env), self.const(t, v, env), t, g); return
         if op == 'alloca':
             self.fresh += 1
             env[dst] = Ptr('A:%s#%d' % (dst, self.fresh), z3.BitVecVal(0, 64)); return
         if op in ('call', 'tail'):
             mm = re.match(r'^(?:tail )?call (.+?) @([\w.$]+)\((.*)\)', rhs)
-            if not mm: raise Unsupported(ins)
+            if not mm:
+                mi = re.match(r'^(?:tail )?call (.+?) (%[\w.]+)\((.*)\)', rhs)
+                if not mi: raise Unsupported(ins)
+                self.events.append((g, 'INDIRECT', [env.get(mi.group(2))]))
+                rt = mi.group(1).replace('noundef', '').strip()
+                if dst: env[dst] = Ptr('R:indirect#%d' % len(self.events), z3.BitVecVal(0, 64)) if rt.endswith('*') else self.newbv('ret_indirect', self.bits(rt))
+                return
             rt, callee, argstr = mm.groups()
             rt = re.sub(r'\(.*\)$', '', rt).replace('noundef', '').replace('zeroext', '').replace('signext', '').strip()
             args = []
